@@ -23,6 +23,7 @@ pub struct VacantEntry<'a, P, T> {
 /// present on the tree.
 pub struct OccupiedEntry<'a, P, T> {
     pub(super) node: &'a mut Node<P, T>,
+    pub(super) count: &'a std::sync::atomic::AtomicUsize, // number of values in the map, see `remove`.
     pub(super) prefix: P, // needed to replace the prefix on the thing if we perform insert.
 }
 
@@ -256,7 +257,7 @@ where
             DirectionForInsert::Reached => {
                 // increment the count, as node.value will be `None`. We do it here as we borrow
                 // `map` mutably in the next line.
-                self.map.count += 1;
+                self.map.table.counter().fetch_add(1, Ordering::Relaxed);
                 let node = &mut self.map.table[self.idx];
                 node.prefix = self.prefix;
                 debug_assert!(node.value.is_none());
@@ -414,7 +415,9 @@ impl<P, T> OccupiedEntry<'_, P, T> {
     /// # fn main() {}
     /// ```
     pub fn remove(&mut self) -> T {
-        self.node.value.take().unwrap()
+        let value = self.node.value.take().unwrap();
+        self.count.fetch_sub(1, Ordering::Relaxed);
+        value
     }
 }
 
